@@ -410,6 +410,7 @@ func init() {
 	Properties["C20"] = &PropertySpec{
 		Modules: []string{"bigtable", "storage"},
 		Rules: []Rule{
+			R60(),
 			Only(R59(), `^g/`, `^f/`),
 			Only(R24(), `content-length`),
 			Only(R56(), `^a/`),
@@ -429,8 +430,8 @@ func init() {
 			R25(),
 			R08(Only8("ReadModifyWriteRow")),
 		},
-		Explanation: "Decides the crash and wedge vectors visible in code shape, for both emulators: request integers are sign- and length-checked before they bound a slice (R13); constant indexing of variable-length parse results is length-checked on the same value (R14); maybe-nil results of store lookups, optional request sub-messages and JSON-decoded pointers are checked before dereference, interprocedurally (R16); every HTTP handler path writes a response and nothing touches the writer after an error response (R15); parse failures are answered 4xx and return (R17); shared maps and definitions are only touched under their mutexes and never escape unlocked into responses — the 'fatal runtime error / data race' clause (R01/R05); no path returns with a lock held (R04); reachable explicit panics and unchecked type assertions are confined to a reasoned table (R25); the Uint64 length precondition (R08).",
-		NotDecided:  []string{"resource exhaustion, hangs inside libraries, well-formedness of every response body, batch sub-response equality"},
+		Explanation: "Decides the crash and wedge vectors visible in code shape, for both emulators: request integers are sign- and length-checked before they bound a slice (R13); constant indexing of variable-length parse results is length-checked on the same value (R14); maybe-nil results of store lookups, optional request sub-messages and JSON-decoded pointers are checked before dereference, interprocedurally (R16); every HTTP handler path writes a response and nothing touches the writer after an error response (R15); parse failures are answered 4xx and return (R17); shared maps and definitions are only touched under their mutexes and never escape unlocked into responses — the 'fatal runtime error / data race' clause (R01/R05); no path returns with a lock held (R04); reachable explicit panics and unchecked type assertions are confined to a reasoned table (R25); the Uint64 length precondition (R08); a batch answers every parsed part: each iteration of the dispatch loop hands the sub-request to the stand-alone entry point with a recorder of its own, creates one part and writes the recorded response into it, the request and content-id lists grow together, and the multipart body is closed (R60).",
+		NotDecided:  []string{"resource exhaustion, hangs inside libraries, well-formedness of every response body, byte-equality of a batch sub-response with the stand-alone response"},
 		Assumptions: commonAssumptions,
 	}
 }
